@@ -266,6 +266,25 @@ func c19RunLatest(b core.Batch, r *core.Recorder) {
 			}
 			r.Count("bursts_while_cache_busy", 1)
 		}
+		// the remaining third: the cache's first size-limit notification of the burst is held between looking up the
+		// current limit and applying it (hook cache.maxsize.read, where the tree has it) until all changes have been
+		// announced - what a loaded machine does to that goroutine now and then. The limit it then applies is an
+		// old one; the notifications of the later changes must still have the last word.
+		heldVariant := i%3 == 2 && !busyOnly
+		heldRelease := make(chan struct{})
+		if heldVariant {
+			var first atomic.Bool
+			first.Store(true)
+			verifhook.Set("cache.maxsize.read", func(any) {
+				if first.CompareAndSwap(true, false) {
+					r.Count("bursts_with_a_held_limit_listener", 1)
+					select {
+					case <-heldRelease:
+					case <-time.After(3 * time.Second):
+					}
+				}
+			})
+		}
 		for k := 0; k < n; k++ {
 			if busyVariant && k > 0 {
 				time.Sleep(time.Duration(20+rng.IntN(200)) * time.Microsecond)
@@ -285,6 +304,10 @@ func c19RunLatest(b core.Batch, r *core.Recorder) {
 		quiet := waitFor(func() bool {
 			return dSize.Load() == int64(n) && dBudget.Load() == int64(n) && dInterval.Load() == int64(n)+extra
 		}, 10*time.Second)
+		if heldVariant {
+			time.Sleep(20 * time.Millisecond) // the notifications that are not held have run (or queue behind the held one)
+			close(heldRelease)
+		}
 		close(stopTraffic)
 		traffic.Wait()
 		_ = applied0
@@ -292,6 +315,7 @@ func c19RunLatest(b core.Batch, r *core.Recorder) {
 			close(release)
 		}
 		verifhook.Set("janitor.scan.done", nil)
+		verifhook.Set("cache.maxsize.read", nil)
 		var wantCap int64 = -1
 		if quiet && backend == "memory" {
 			// memoryCap = total * percent / 100: the reference is a second cache constructed with the final percent
@@ -980,7 +1004,7 @@ func init() {
 		ID:    "C19",
 		Level: "exploration",
 		Rule: "set model: every sequence up to <depth> over {subscribe (<=4 listeners), unsubscribe_i (also repeated), fire} on ConfigProp.OnChange plus seeded random sequences of 8-30 ops with up to 8 listeners; after every fire exactly the model's listener set must have been called once each, no panic. " +
-			"latest value: bursts of 2-10 back-to-back changes of max_cache_size / memory_budget_percent / cleanup_interval on live memory and file caches and of the log level on the real logger, under GOMAXPROCS 1, 2, 16, every third burst while the janitor loop is parked inside a cleanup cycle (hook), every third while six goroutines keep storing and deleting on the cache (its own locks busy); at observed quiescence the component state must equal the last value. " +
+			"latest value: bursts of 2-10 back-to-back changes of max_cache_size / memory_budget_percent / cleanup_interval on live memory and file caches and of the log level on the real logger, under GOMAXPROCS 1, 2, 16, every third burst while the janitor loop is parked inside a cleanup cycle (hook), every third while six goroutines keep storing and deleting on the cache (its own locks busy), every third with the cache's first size-limit notification held between look-up and apply (hook cache.maxsize.read) until all changes have been announced; at observed quiescence the component state must equal the last value. " +
 			"shutdown: three caches on one config, every prefix of every destruction order, shut down by Destroy or by cancelling the context and then Destroy; a change must then reach exactly the survivors, and after everything is shut down further changes must leave no goroutine in the cache package. first use: on a fresh configuration the first subscriptions and first changes of a never-used setting are released at once from 3-4 goroutines, then a further change must reach every listener with its value (race build). unsubscribe during a change: 3..512 listeners, 1-3 early ones shut down from other goroutines at the instant the setting changes; survivors must each be told exactly once, also about the next change. loaded configuration: per setting a configuration loaded from the file, then its first change through the API entry point (including to the zero value of its type) must reach its listener. policy: ignore_cache_control / retry_on_invalid_range / retry_on_range_416 toggled between requests through the real proxy, once with Overwrite on the usual rig proxy and once through the API entry point on a proxy built from a default configuration whose policy settings nobody touched before NewProxy. Non-trivial = distinct sequence with a fire and >= 2 listeners / burst / order / toggle.",
 		Assumptions: []string{"quiescence of the notifications is observed (co-listeners counted); components then get a bounded grace of 5 s to end on the last value (janitor.interval.applied hook); bursts whose notifications are not all delivered within 10 s are not judged", "settings are changed with ConfigProp.Overwrite, the same entry point command-line overrides use"},
 		Plan:        c19Plan,
